@@ -1,10 +1,20 @@
 """C12 — broker connection (broker/client.go): see coq/Broker/Conn.v, ConnSpec.v, coq/Props/C12.v."""
 import os, sys
 sys.path.insert(0, os.path.dirname(os.path.abspath(__file__)))
-import _bc
+import _bc, _sys
 
 ASSUMPTIONS = _bc.ASSUMPTIONS
 
 
 def run(ck):
     _bc.run_bc(ck, "c12", set("c12_will".split()))
+    if ck.replay:
+        return
+    ev, di = ck.evaluations, ck.distinct
+    rule = ck.rule
+    ex = _sys.run_sys(ck, "c12")
+    ck.evaluations = ev + ck.stats.get("direct_clauses_evaluated", 0)
+    ck.distinct = di + ck.stats.get("scenarios", 0)
+    ck.rule = rule + "; plus whole broker (Engine + MemoryBackend over TCP loopback): the will (QoS 0/1/2) of a client ending by close / protocol error reaches an idle observer and an observer whose window is used up and whose queue is full at that moment exactly once (will_delivered), the backend is handed the will once (will_once), no will after DISCONNECT"
+    if ex:
+        ck.samples = ck.samples[:4] + [l for l in ex if l.startswith("direct ")][:3]
